@@ -136,8 +136,10 @@ func (res *relayEntrySubmitter) waitForSubmissionEligibility(
 		big.NewInt(int64(groupSize)),
 	).Uint64()
 
+	// Member indexes start from 1 while the submission queue is computed for
+	// indexes from range [0, groupSize-1].
 	submissionQueueIndex := calculateSubmissionQueueIndex(
-		uint64(res.index),
+		uint64(res.index)-1,
 		firstSubmitterMemberIndex,
 		uint64(groupSize),
 	)
